@@ -20,6 +20,15 @@ Ltac h_cbn := cbn [h_in_sess h_in_conn h_ack_final h_ack_inter h_modulate h_tx_m
   set_h_pq set_h_check h_emit habs is_none item_ack tmp_is outcome_code gen_tx_teardown fst snd app negb andb orb].
 Ltac hp_norm := h_cbn; p_norm; h_cbn.
 Ltac hp_split := repeat (hp_norm; first [known_step | case_step]); hp_norm.
+(** A close decided by _check_sess_term happens on an idle endpoint: the queue of
+    unstarted transfers is empty there, so the report-on-close loop adds nothing. *)
+Ltac idle_facts :=
+  repeat match goal with E : _ && _ = true |- _ =>
+           let a := fresh "Ei" in let b := fresh "Ei" in apply andb_true_iff in E; destruct E as [a b] end;
+  repeat match goal with E : is_nil ?l = true |- _ => let El := fresh "El" in destruct l eqn:El; [|discriminate E]; clear E end.
+Ltac close_norm :=
+  unfold close_txmap, close_pend, close_trace; hp_split; idle_facts;
+  cbn [flush_map fold_left flush_events map app].
 Ltac hh_unfold :=
   c_handle_msg; c_send_sess_term;
   unfold check_sess_term, is_sess_idle, raise, ok, send_msg; opq.
@@ -54,27 +63,27 @@ Section Ack.
   Let r := handle_msg (MXferAck fl xid len) s.
 
   Lemma ack_outcome : snd g = outcome_code (snd r).
-  Proof. subst g r. unfold gen_recv_xfer_ack, is_none, item_ack, tmp_is. hh_unfold. hp_split; tie_leaf. Qed.
+  Proof. subst g r. unfold gen_recv_xfer_ack, is_none, item_ack, tmp_is. hh_unfold. hp_split; close_norm; tie_leaf. Qed.
   Lemma ack_tx_map : h_tx_map (fst g) = tx_map (fst r).
-  Proof. subst g r. unfold gen_recv_xfer_ack, is_none, item_ack, tmp_is. hh_unfold. hp_split; tie_leaf. Qed.
+  Proof. subst g r. unfold gen_recv_xfer_ack, is_none, item_ack, tmp_is. hh_unfold. hp_split; close_norm; tie_leaf. Qed.
   Lemma ack_pend_ack : h_pend_ack (fst g) = pend_ack (fst r).
-  Proof. subst g r. unfold gen_recv_xfer_ack, is_none, item_ack, tmp_is. hh_unfold. hp_split; tie_leaf. Qed.
+  Proof. subst g r. unfold gen_recv_xfer_ack, is_none, item_ack, tmp_is. hh_unfold. hp_split; close_norm; tie_leaf. Qed.
   Lemma ack_pend_start : h_pend_start (fst g) = pabs (pend_start (fst r)).
-  Proof. subst g r. unfold gen_recv_xfer_ack, pabs, is_none, item_ack, tmp_is. hh_unfold. hp_split; tie_leaf. Qed.
+  Proof. subst g r. unfold gen_recv_xfer_ack, pabs, is_none, item_ack, tmp_is. hh_unfold. hp_split; close_norm; tie_leaf. Qed.
   Lemma ack_flags : h_in_sess (fst g) = in_sess (fst r) /\ h_in_conn (fst g) = in_conn (fst r)
     /\ h_tx_len (fst g) = tx_len (fst r) /\ h_pq (fst g) = pq_set (fst r).
-  Proof. subst g r. unfold gen_recv_xfer_ack, is_none, item_ack, tmp_is. hh_unfold. hp_split; repeat split; tie_leaf. Qed.
+  Proof. subst g r. unfold gen_recv_xfer_ack, is_none, item_ack, tmp_is. hh_unfold. hp_split; close_norm; repeat split; tie_leaf. Qed.
   Lemma ack_tx_tmp : h_tx_tmp (fst g) = h_tx_tmp (habs (fst r)).
-  Proof. subst g r. unfold gen_recv_xfer_ack, is_none, item_ack, tmp_is. hh_unfold. hp_split; tie_leaf. Qed.
+  Proof. subst g r. unfold gen_recv_xfer_ack, is_none, item_ack, tmp_is. hh_unfold. hp_split; close_norm; tie_leaf. Qed.
   Lemma ack_events : exists tail, trace (fst r) = trace s ++ h_events (fst g) ++ tail
     /\ (tail = [] \/ (tail = [EClosed] /\ h_check (fst g) = true)).
   Proof.
-    subst g r. unfold gen_recv_xfer_ack, is_none, item_ack, tmp_is. hh_unfold. hp_split; unfold close_trace; hp_split;
+    subst g r. unfold gen_recv_xfer_ack, is_none, item_ack, tmp_is. hh_unfold. hp_split; close_norm;
       first [ exists []; rewrite ?app_nil_r, <- ?app_assoc; split; [reflexivity|left; reflexivity]
             | exists [EClosed]; rewrite ?app_nil_r, <- ?app_assoc; split; [reflexivity|right; split; reflexivity] ].
   Qed.
   Lemma ack_closed : h_check (fst g) = false -> closed (fst r) = closed s.
-  Proof. subst g r. unfold gen_recv_xfer_ack, is_none, item_ack, tmp_is. hh_unfold. hp_split; intros H; tie_leaf. Qed.
+  Proof. subst g r. unfold gen_recv_xfer_ack, is_none, item_ack, tmp_is. hh_unfold. hp_split; close_norm; intros H; tie_leaf. Qed.
 End Ack.
 
 (** ** XFER_REFUSE *)
@@ -84,7 +93,10 @@ Ltac pabs_leaf :=
              change (map (fun it : N * bytes => (fst it, @None N)) l) with (pabs l)
          end;
   rewrite ?pabs_dict_del; try reflexivity;
-  try (match goal with E : pend_has _ _ = false |- _ => rewrite (pabs_absent _ _ E); reflexivity end).
+  try (match goal with E : pend_has _ _ = false |- _ => rewrite (pabs_absent _ _ E); reflexivity end);
+  try congruence;
+  try (match goal with E : pend_has _ _ = false, El : dict_del _ ?l = [] |- _ =>
+         rewrite (pabs_absent _ _ E) in El; rewrite El; reflexivity end).
 
 Section Refuse.
   Variables (s : ep) (reason xid : N).
@@ -93,27 +105,27 @@ Section Refuse.
   Ltac ref_start := subst g r; unfold gen_recv_xfer_refuse, is_none, item_ack, tmp_is; hh_unfold.
 
   Lemma refuse_outcome : snd g = outcome_code (snd r).
-  Proof. ref_start. hp_split; tie_leaf. Qed.
+  Proof. ref_start. hp_split; close_norm; tie_leaf. Qed.
   Lemma refuse_tx_map : h_tx_map (fst g) = tx_map (fst r).
-  Proof. ref_start. hp_split; tie_leaf. Qed.
+  Proof. ref_start. hp_split; close_norm; tie_leaf. Qed.
   Lemma refuse_pend_ack : h_pend_ack (fst g) = pend_ack (fst r).
-  Proof. ref_start. hp_split; tie_leaf. Qed.
+  Proof. ref_start. hp_split; close_norm; tie_leaf. Qed.
   Lemma refuse_pend_start : h_pend_start (fst g) = pabs (pend_start (fst r)).
-  Proof. ref_start. hp_split; pabs_leaf. Qed.
+  Proof. ref_start. hp_split; close_norm; pabs_leaf. Qed.
   Lemma refuse_flags : h_in_sess (fst g) = in_sess (fst r) /\ h_in_conn (fst g) = in_conn (fst r)
     /\ h_tx_len (fst g) = tx_len (fst r) /\ h_pq (fst g) = pq_set (fst r).
-  Proof. ref_start. hp_split; repeat split; tie_leaf. Qed.
+  Proof. ref_start. hp_split; close_norm; repeat split; tie_leaf. Qed.
   Lemma refuse_tx_tmp : h_tx_tmp (fst g) = h_tx_tmp (habs (fst r)).
-  Proof. ref_start. hp_split; tie_leaf. Qed.
+  Proof. ref_start. hp_split; close_norm; tie_leaf. Qed.
   Lemma refuse_events : exists tail, trace (fst r) = trace s ++ h_events (fst g) ++ tail
     /\ (tail = [] \/ (tail = [EClosed] /\ h_check (fst g) = true)).
   Proof.
-    ref_start. hp_split; unfold close_trace; hp_split;
+    ref_start. hp_split; close_norm;
       first [ exists []; rewrite ?app_nil_r, <- ?app_assoc; split; [reflexivity|left; reflexivity]
             | exists [EClosed]; rewrite ?app_nil_r, <- ?app_assoc; split; [reflexivity|right; split; reflexivity] ].
   Qed.
   Lemma refuse_closed : h_check (fst g) = false -> closed (fst r) = closed s.
-  Proof. ref_start. hp_split; intros H; tie_leaf. Qed.
+  Proof. ref_start. hp_split; close_norm; intros H; tie_leaf. Qed.
 End Refuse.
 
 (** ** SESS_TERM *)
@@ -142,30 +154,30 @@ Section Term.
       cbv zeta in *; fold (pabs (pend_start s)) | ].
 
   Lemma term_outcome : snd g = outcome_code (snd r).
-  Proof. term_start; hp_split; tie_leaf. Qed.
+  Proof. term_start; hp_split; close_norm; tie_leaf. Qed.
   Lemma term_tx_map : h_tx_map (fst g) = tx_map (fst r).
-  Proof. term_start; [rewrite ?A1|]; hp_split; tie_leaf. Qed.
+  Proof. term_start; [rewrite ?A1|]; hp_split; close_norm; tie_leaf. Qed.
   Lemma term_pend_start : h_pend_start (fst g) = pabs (pend_start (fst r)).
-  Proof. term_start; [rewrite ?A5|]; unfold pabs; hp_split; tie_leaf. Qed.
+  Proof. term_start; [rewrite ?A5|]; unfold pabs; hp_split; close_norm; tie_leaf. Qed.
   Lemma term_pend_ack : h_pend_ack (fst g) = pend_ack (fst r).
-  Proof. term_start; [rewrite ?A6|]; hp_split; tie_leaf. Qed.
+  Proof. term_start; [rewrite ?A6|]; hp_split; close_norm; tie_leaf. Qed.
   Lemma term_flags : h_in_sess (fst g) = in_sess (fst r) /\ h_in_conn (fst g) = in_conn (fst r)
     /\ h_tx_len (fst g) = tx_len (fst r) /\ h_pq (fst g) = pq_set (fst r).
-  Proof. term_start; [rewrite ?A3, ?A4, ?A8, ?A9|]; hp_split; repeat split; tie_leaf. Qed.
+  Proof. term_start; [rewrite ?A3, ?A4, ?A8, ?A9|]; hp_split; close_norm; repeat split; tie_leaf. Qed.
   Lemma term_tx_tmp : h_tx_tmp (fst g) = h_tx_tmp (habs (fst r)).
-  Proof. term_start; [rewrite ?A7|]; hp_split; tie_leaf. Qed.
+  Proof. term_start; [rewrite ?A7|]; hp_split; close_norm; tie_leaf. Qed.
   Lemma term_events : exists t1 tail, trace (fst r) = trace s ++ t1 ++ h_events (fst g) ++ tail
     /\ (t1 = [] \/ t1 = [ESig SigState [PStr ST_ENDING]])
     /\ (tail = [] \/ (tail = [EClosed] /\ h_check (fst g) = true)).
   Proof.
-    term_start; [rewrite ?A2, ?A10|]; hp_split; unfold close_trace, state_trace; hp_split;
+    term_start; [rewrite ?A2, ?A10|]; hp_split; unfold state_trace; close_norm;
       first [ exists [], []; cbn [app]; rewrite ?app_nil_r, <- ?app_assoc; split; [reflexivity|]; split; [left; reflexivity|left; reflexivity]
             | exists [], [EClosed]; cbn [app]; rewrite ?app_nil_r, <- ?app_assoc; split; [reflexivity|]; split; [left; reflexivity|right; split; reflexivity]
             | exists [ESig SigState [PStr ST_ENDING]], []; cbn [app]; rewrite ?app_nil_r, <- ?app_assoc; split; [reflexivity|]; split; [right; reflexivity|left; reflexivity]
             | exists [ESig SigState [PStr ST_ENDING]], [EClosed]; cbn [app]; rewrite ?app_nil_r, <- ?app_assoc; split; [reflexivity|]; split; [right; reflexivity|right; split; reflexivity] ].
   Qed.
   Lemma term_closed : h_check (fst g) = false -> closed (fst r) = closed s.
-  Proof. term_start; [rewrite ?A10|]; hp_split; intros H; tie_leaf. Qed.
+  Proof. term_start; [rewrite ?A10|]; hp_split; close_norm; intros H; tie_leaf. Qed.
 End Term.
 
 (** ** The three ties, field by field *)
